@@ -4,6 +4,7 @@ import (
 	"fmt"
 	"io"
 	"log"
+	"net"
 	"net/http"
 	"os"
 	"sort"
@@ -134,6 +135,9 @@ func runWorld(name string, seed uint64, replay []int32) *Result {
 		log.SetFlags(log.Lmicroseconds)
 	}
 	// process-wide seams that already exist in the code base and its libraries
+	// every dial/listen of the process goes to SimNet (hook in the overlaid net package)
+	net.SimDialContext = sim.DialContext
+	net.SimListen = sim.Listen
 	http.DefaultTransport.(*http.Transport).DialContext = sim.DialContext
 	http.DefaultTransport.(*http.Transport).Proxy = nil
 	websocket.DefaultDialer = &websocket.Dialer{NetDialContext: sim.DialContext, HandshakeTimeout: 45 * time.Second}
